@@ -1,5 +1,6 @@
 SPECIFICATION Spec
 CONSTANTS
+  MoveSingletons = TRUE
   MaxGlyphs = 3
   MaxLayersPerGlyph = 2
   MaxLayers = 4
@@ -10,5 +11,6 @@ INVARIANT SamePicture
 INVARIANT NoCrossGlyphRef
 INVARIANT HrefsClosed
 INVARIANT DocRanges
+INVARIANT GidIsPosition
 INVARIANT PlacedOnce
 INVARIANT Export
